@@ -1,4 +1,6 @@
+import NeoFS.Lemmas.Threshold
 import NeoFS.Lemmas.NNSAuth
+import NeoFS.Generated.AccessIR
 set_option linter.unusedSimpArgs false
 set_option linter.unusedVariables false
 /-! # C11 — NNS: only owner/admin/committee may change a name; sub-names need the parent
@@ -9,6 +11,45 @@ for the state after every history: authorisation follows ownership through every
 re-registration, and a former owner or admin has no authority left. -/
 namespace NeoFS.Props.C11
 open NeoFS NeoFS.NNS
+
+/-! ### the committee gate -/
+
+/-- bridge: the threshold expression of `checkCommittee` in the sources (regenerated from the Go AST as a `TExpr`)
+evaluates, under Go semantics and for every committee size l ≥ 1, to the model's `committeeThreshold l`
+(decided by the sound procedure `TExpr.computes`, so an equivalent rewrite of the expression keeps this true) -/
+theorem committee_threshold_expression (l : Nat) (h : 1 ≤ l) :
+    (Generated.Access.nnsCommitteeThresholdE.bind (TExpr.evalGo · l)) = some ((committeeThreshold l : Nat) : Int) := by
+  have hd : (Generated.Access.nnsCommitteeThresholdE.map (TExpr.computes · TExpr.specMajority)) = some true := by
+    decide +kernel
+  cases he : Generated.Access.nnsCommitteeThresholdE with
+  | none => simp [he] at hd
+  | some e =>
+    simp [he] at hd
+    have : committeeThreshold l = l / 2 + 1 := by unfold committeeThreshold; omega
+    simp [TExpr.computes_sound hd l h, TExpr.eval_specMajority, this]
+
+/-- `l-(l-1)/2` is the committee majority `l/2+1` for every committee size -/
+theorem committee_threshold_is_majority (l : Nat) (h : 1 ≤ l) : committeeThreshold l = l / 2 + 1 := by
+  unfold committeeThreshold; omega
+
+/-- The committee gate opens exactly for the majority account: the k-of-l multisignature account of the
+committee keys carries the committee witness iff k = l/2+1. In particular no account of half the committee or
+fewer (k ≤ l/2) passes, for even committee sizes too, and the genuine majority account always passes. -/
+theorem committee_gate_exact (env : Env) : env.committee = true ↔ 1 ≤ env.cmtL ∧ env.cmtK = env.cmtL / 2 + 1 := by
+  unfold Env.committee committeeWitness
+  simp only [Bool.and_eq_true, decide_eq_true_eq, beq_iff_eq]
+  constructor
+  · rintro ⟨h1, h2⟩; exact ⟨h1, by rw [h2, committee_threshold_is_majority _ h1]⟩
+  · rintro ⟨h1, h2⟩; exact ⟨h1, by rw [h2, committee_threshold_is_majority _ h1]⟩
+
+theorem committee_gate_refuses_minority (env : Env) (h : env.cmtK ≤ env.cmtL / 2) : env.committee = false := by
+  cases hc : env.committee with
+  | false => rfl
+  | true => have := (committee_gate_exact env).mp hc; omega
+
+-- half of an even committee is refused, the majority accepted (l = 4 and 6)
+example : committeeWitness 2 4 = false ∧ committeeWitness 3 4 = true ∧ committeeWitness 3 6 = false ∧
+    committeeWitness 4 6 = true ∧ committeeWitness 1 1 = true ∧ committeeWitness 0 1 = false := by decide
 
 /-- A HALTed invocation that did not answer `false` carried the witnesses the property names. -/
 theorem mutation_authorised (s s' : State) (env : Env) (op : Op) (r : Ret) (ev : List Event)
@@ -126,8 +167,8 @@ def U3 : Hash := List.replicate 20 3
 def com : Name := [99, 111, 109]
 def aCom : Name := [97, 46, 99, 111, 109]
 def bACom : Name := [98, 46, 97, 46, 99, 111, 109]
-def envC (now : Int) : Env := ⟨[], [], true, now, fun _ => true, true, 0⟩
-def envS (us : List Hash) (now : Int) : Env := ⟨us, [], false, now, fun _ => true, true, 0⟩
+def envC (now : Int) : Env := ⟨[], [], 1, 1, now, fun _ => true, true, 0⟩
+def envS (us : List Hash) (now : Int) : Env := ⟨us, [], 0, 1, now, fun _ => true, true, 0⟩
 def mail : Bytes := [101, 64, 120]
 def txt : Bytes := [118]
 
